@@ -251,7 +251,7 @@ def run(tier, seed, argv):
     rep.assumptions = ["real arithmetic; bit patterns and torch.save serialisation are outside the claim", "generic equality regime of the hyperparameters (thorough adds all regimes for one configuration)",
                        "DDP (DTensor) state layout: world 2 on the rank simulator; other distributed layouts are not resumed"]
     rep.validate_standin(6 if tier == "quick" else 24)
-    rep.absorb("resume", par.run_jobs(jobs, chunk=6))
+    rep.absorb("resume", par.run_jobs(jobs, chunk=6), soft=lambda j: j.startswith("x"))
     return rep.finish("checks.c09")
 
 
